@@ -394,9 +394,8 @@ def elementwise_complete(db, f, paths, T0, T1):
             seen_store = True
             if len(ip) != len(dims):
                 return "destination of dimensions %s is written with %d index(es): elements beyond the first dimension's extent are never converted" % (dims, len(ip))
-            conds = q.conds_before(p, i)
             for k, iv in enumerate(ip):
-                if ("cmp", "<", iv, C(dims[k])) not in conds:
+                if not q.loop_bound_ok(p, i, iv, dims[k]):
                     return "index %d of the element loop is not bounded by the extent %d of that dimension" % (k, dims[k])
             srcs = []
             for x in subterms(e.b):
